@@ -115,6 +115,7 @@ int main(int argc, char** argv) {
     else if (a == "--max-instr") OPT.maxInstrPath = std::stoull(nxt());
     else if (a == "--max-paths") OPT.maxPaths = std::stoull(nxt());
     else if (a == "--rlimit") OPT.rlimit = std::stoul(nxt());
+    else if (a == "--cvc5-ms") OPT.cvc5Ms = std::stoul(nxt());
     else if (a == "--ptr-cap") OPT.ptrCap = std::stoul(nxt());
     else if (a == "--no-overflow") OPT.checkOverflow = false;
     else if (a == "--samples") OPT.samples = std::stoul(nxt());
